@@ -259,6 +259,21 @@ theorem get_rmtreeC (d : Path) (fs : FS) (p : Path) :
   rw [get_filter (fun x => !below d x) fs p]
   cases below d p <;> simp
 
+/-- a world none of whose entries lies at or below `d` has nothing at or below
+    `d` (turns the decidable check of a concrete `FS` into the `hfresh`
+    hypothesis of the theorems with contents) -/
+theorem fresh_of_entries (d : Path) (fs : FS) (h : ∀ x ∈ fs, below d x.1 = false) :
+    ∀ p, below d p = true → fs.get p = none := by
+  intro p hp
+  unfold FS.get
+  cases hf : List.find? (fun x => x.1 == p) fs with
+  | none => rfl
+  | some x =>
+    have hx := List.mem_of_find?_eq_some hf
+    have hxp : x.1 = p := by simpa using List.find?_some hf
+    rw [← hxp, h x hx] at hp
+    cases hp
+
 /-- **the bracket restores the world, contents included**: if the body leaves
     everything outside `d` as it was and nothing existed at or below `d`, then
     after the call every path has the node (existence, kind, bytes) it had before. -/
